@@ -86,6 +86,12 @@ def _closure_args_pure(e):
     return True
 
 
+def inline_glue(target_fn, ev):
+    """inline everything local except the integer helpers that BIT verifies on their own"""
+    import vint
+    return target_fn.crate in LOCAL_CRATES and not vint.is_helper(target_fn)
+
+
 def is_pure_event(e):
     c = e.get("callee")
     if c is None:
@@ -127,6 +133,7 @@ class CT:
         self.extra = extra or {}
         self.ids = {}
         self.pure = {}
+        self.vars = {}
         n = 0
         for e in path.events:
             if e["k"] == "call" and not e.get("modelled") and not e.get("inlined"):
@@ -408,6 +415,8 @@ class CT:
             return "after#%s(%s)" % (n, self.loc(x[2]))
         if k == "from":
             return r(x[1])      # From<T> for T / error conversions between equal types: C-rules that care check the variant
+        if k == "okval" and x[1][0] == "call" and re.match(r"^(core|std)::result::Result<\(\), ", x[1][4] or ""):
+            return "()"         # the only value of the unit type
         if k in ("okval", "errval", "someval", "try", "residual", "tag", "tagflip", "to_bits", "from_bits"):
             return "%s(%s)" % (k, r(x[1]))
         if k == "len":
@@ -553,9 +562,10 @@ def literal_of(ct, cond, truth):
         c = c[2] if c[0] == "un" else c[1]
     if c[0] == "tag":
         var = "tag(%s)" % ct.t(norm(c[1]))
+        _tag_domain(ct, var, c[1])
         if isinstance(truth, tuple):
-            vals = frozenset((1 - v) if flip else v for v in truth[1])
-            return ("tag", var, ("not", tuple(sorted(vals))))
+            # the engine records the excluded set in the variable's own numbering (already un-flipped)
+            return ("tag", var, ("not", tuple(sorted(truth[1]))))
         v = int(truth)
         if flip:
             v = 1 - v
@@ -626,6 +636,18 @@ def cond_dnf(ct, cond, truth):
     return [[l]] if l is not None else [[]]
 
 
+def _tag_domain(ct, var, x):
+    """Result and Option have exactly the variant indices 0 and 1"""
+    try:
+        ty = term_ty(x) if x[0] != "param" else x[2]
+    except Exception:
+        ty = None
+    if x[0] == "call":
+        ty = x[4]
+    if isinstance(ty, str) and re.match(r"^(core|std)::(result::Result|option::Option)<", ty):
+        ct.vars[var] = {"dom": [0, 1]}
+
+
 def _lin_literal(ct, a, b, op):
     try:
         la, ca = lin.linearize(norm(a))
@@ -678,6 +700,7 @@ def _lin_literal(ct, a, b, op):
     iv = _norm_intervals(iv)
     if iv == ((None, None),):
         return None
+    ct.vars[var] = [[nm, str(Fraction(v) / s), bool(_unsigned_atom(x))] for nm, v, x in named]
     return ("lin", var, iv)
 
 
@@ -730,6 +753,7 @@ def _path_outcome(F, fn, p, extra, hide_calls=(), renames=None):
             lits += alts[0]
         else:
             lits.append(("tag", "tag(%s)" % ct.t(atom), ("in", (v,))))
+            ct.vars["tag(%s)" % ct.t(atom)] = {"dom": [0, 1]}
     evs = []
     seg = {}          # writes since the last effect: loc text -> value text (last one wins)
 
@@ -764,7 +788,7 @@ def _path_outcome(F, fn, p, extra, hide_calls=(), renames=None):
     conjs = [list(lits)]
     for alts in alts_all:
         conjs = [c + a for c in conjs for a in alts]
-    return text, conjs
+    return text, conjs, ct.vars
 
 
 def summarize(F, fn, max_visits=None, hide_calls=(), _nested=False, inline=inline_local, renames=None):
@@ -774,6 +798,7 @@ def summarize(F, fn, max_visits=None, hide_calls=(), _nested=False, inline=inlin
     eng = sym.Engine(F, inline=inline, max_visits=max_visits, max_depth=10, models=sym.SLICE_MODELS)
     paths = [p for p in eng.run(fn) if p.status != "infeasible"]
     outcomes = {}
+    vtab = {}
     for p in paths:
         pending = [{}]
         guard = 0
@@ -783,7 +808,8 @@ def summarize(F, fn, max_visits=None, hide_calls=(), _nested=False, inline=inlin
             if guard > 64:
                 raise RuntimeError("case-split explosion in %s" % fn.def_)
             try:
-                text, conjs = _path_outcome(F, fn, p, extra, hide_calls, renames)
+                text, conjs, vt = _path_outcome(F, fn, p, extra, hide_calls, renames)
+                vtab.update(vt)
             except NeedSplit as ns:
                 for v in (0, 1):
                     e2 = dict(extra)
@@ -796,7 +822,8 @@ def summarize(F, fn, max_visits=None, hide_calls=(), _nested=False, inline=inlin
                     continue          # contradictory literals: not a real path
                 outcomes.setdefault(text, []).append(conj)
     out = [{"text": t, "when": [[list(_lit_json(l)) for l in c] for c in sorted(cs, key=repr)]} for t, cs in sorted(outcomes.items())]
-    return {"outcomes": out, "truncated": bool(eng.truncated)}
+    used = set(l[1] for o in out for c in o["when"] for l in c)
+    return {"outcomes": out, "truncated": bool(eng.truncated), "vars": {k: v for k, v in sorted(vtab.items()) if k in used}}
 
 
 def _conj(lits):
@@ -855,8 +882,38 @@ def _dnf_from_json(when):
     return [tuple(_lit_from_json(l) for l in c) for c in when]
 
 
-def dnf_equal(a, b, cap=400000):
-    """are two DNFs (lists of conjunctions of literals) the same boolean function? -> (True, None) | (False, witness text)"""
+def _feasible(asg, vtab, hyps):
+    """is the assignment of regions to linear variables consistent with linear arithmetic and the hypotheses?  (rational relaxation)"""
+    cons = []
+    atoms = set()
+    for (k, var), region in asg.items():
+        if k != "lin" or not isinstance(vtab.get(var), list):
+            continue
+        lo, hi = region
+        co = {a: Fraction(c) for a, c, u in vtab[var]}
+        for a, c, u in vtab[var]:
+            atoms.add(a)
+            if u:
+                cons.append(lin.Ineq({a: 1}, 0))
+        if lo is not None:
+            cons.append(lin.Ineq(dict(co), -lo))
+        if hi is not None:
+            cons.append(lin.Ineq({a: -c for a, c in co.items()}, hi))
+    for co, c in hyps or ():
+        cons.append(lin.Ineq(dict(co), c))
+        atoms |= set(co)
+    if not cons:
+        return True
+    try:
+        return lin._feasible(cons, sorted(atoms))
+    except Exception:
+        return True
+
+
+def dnf_equal(a, b, cap=400000, vtab=None, hyps=None):
+    """are two DNFs (lists of conjunctions of literals) the same boolean function, on every assignment that linear arithmetic (and the
+    given hypotheses) admits? -> (True, None) | (False, witness text)"""
+    vtab = vtab or {}
     vars_ = {}
     for dnf in (a, b):
         for c in dnf:
@@ -877,10 +934,24 @@ def dnf_equal(a, b, cap=400000):
     total = 1
     for key in keys:
         if key[0] == "tag":
-            dom = sorted(vars_[key]) + ["other"]
+            vt = vtab.get(key[1])
+            if isinstance(vt, dict) and "dom" in vt:
+                dom = list(vt["dom"])
+            else:
+                dom = sorted(vars_[key]) + ["other"]
         else:
+            # homogeneous regions between the cut points
             pts = sorted(vars_[key])
-            dom = pts + ([pts[0] - 1, pts[-1] + 1] if pts else [0])
+            dom = []
+            prev = None
+            for p_ in pts:
+                if prev is None:
+                    dom.append((None, p_ - 1))
+                elif p_ - 1 >= prev + 1:
+                    dom.append((prev + 1, p_ - 1))
+                dom.append((p_, p_))
+                prev = p_
+            dom.append(((prev + 1) if prev is not None else None, None))
         doms.append(dom)
         total *= len(dom)
     if total > cap:
@@ -899,7 +970,8 @@ def dnf_equal(a, b, cap=400000):
                         ok = False
                         break
                 else:
-                    if not any((lo is None or v >= lo) and (hi is None or v <= hi) for lo, hi in allowed):
+                    rlo, rhi = v
+                    if not any((lo is None or (rlo is not None and rlo >= lo)) and (hi is None or (rhi is not None and rhi <= hi)) for lo, hi in allowed):
                         ok = False
                         break
             if ok:
@@ -908,12 +980,16 @@ def dnf_equal(a, b, cap=400000):
     for combo in itertools.product(*doms):
         asg = dict(zip(keys, combo))
         if holds(a, asg) != holds(b, asg):
+            if not _feasible(asg, vtab, hyps):
+                continue
             return False, ", ".join("%s=%s" % (k[1], v) for k, v in asg.items())
     return True, None
 
 
-def compare(spec, got):
+def compare(spec, got, hyps=None):
     """spec/got: summarize() results (or their JSON). -> list of difference strings (empty = equivalent)"""
+    vtab = dict(spec.get("vars") or {})
+    vtab.update(got.get("vars") or {})
     so = {o["text"]: _dnf_from_json(o["when"]) for o in spec["outcomes"]}
     go = {o["text"]: _dnf_from_json(o["when"]) for o in got["outcomes"]}
     diffs = []
@@ -923,7 +999,7 @@ def compare(spec, got):
         elif t not in so:
             diffs.append("unexpected outcome: " + t)
         else:
-            ok, wit = dnf_equal(so[t], go[t])
+            ok, wit = dnf_equal(so[t], go[t], vtab=vtab, hyps=hyps)
             if not ok:
                 diffs.append("outcome `%s` happens under a different condition (differs at: %s)" % (t[:160], wit))
     return diffs
@@ -937,7 +1013,7 @@ def fmt(s):
     return "\n".join(out)
 
 
-def check(run, rule, fn, want, F, what="", key=None, renames=None):
+def check(run, rule, fn, want, F, what="", key=None, renames=None, hyps=None):
     import summ
     k = key or summ.fn_key(fn)
     try:
@@ -945,7 +1021,7 @@ def check(run, rule, fn, want, F, what="", key=None, renames=None):
     except Exception as ex:
         run.bad(rule, k, "%scould not be summarised: %s: %s" % ((what + ": ") if what else "", type(ex).__name__, ex), fn.where())
         return False
-    diffs = compare(want, got)
+    diffs = compare(want, got, hyps)
     if not diffs:
         run.ok(rule, k, what or "behaviour as specified", fn.where(), method="semantic summary")
         return True
